@@ -52,6 +52,15 @@ type c06Wide struct {
 	Recreate        bool `json:"recreate,omitempty"`
 	IgnoreNotFound  bool `json:"ignore_not_found,omitempty"`
 	IsUpgrade       bool `json:"is_upgrade,omitempty"`
+	// options read before the bail-out (round 5)
+	Description      string `json:"description,omitempty"`
+	UserLabels       bool   `json:"user_labels,omitempty"` // Labels: team=a
+	SkipSchema       bool   `json:"skip_schema,omitempty"`
+	EnableDNS        bool   `json:"enable_dns,omitempty"`
+	ResetThenReuse   bool   `json:"reset_then_reuse,omitempty"`
+	HideNotes        bool   `json:"hide_notes,omitempty"`
+	Devel            bool   `json:"devel,omitempty"`
+	DependencyUpdate bool   `json:"dependency_update,omitempty"`
 	// configuration and cluster (richer model)
 	Getter    bool `json:"getter,omitempty"`     // the configuration has a RESTClientGetter (REST config, discovery, REST mapper) in front of the simulated server
 	NilCaps   bool `json:"nil_caps,omitempty"`   // Configuration.Capabilities is nil: getCapabilities asks the server
@@ -245,6 +254,10 @@ func c06RunWide(r *eng.Runner, op *eng.Op, w *c06Wide) (so eng.StepObs, ro *c06R
 			if w.PostRender {
 				a.PostRenderer = env.post()
 			}
+			a.Description, a.SkipSchemaValidation, a.EnableDNS, a.HideNotes, a.Devel, a.DependencyUpdate = w.Description, w.SkipSchema, w.EnableDNS, w.HideNotes, w.Devel, w.DependencyUpdate
+			if w.UserLabels {
+				a.Labels = map[string]string{"team": "a"}
+			}
 			a.Timeout = time.Second
 			_, err = a.Run(c06Chart(op, w), vals)
 		case "upgrade":
@@ -258,6 +271,11 @@ func c06RunWide(r *eng.Runner, op *eng.Op, w *c06Wide) (so eng.StepObs, ro *c06R
 			if w.PostRender {
 				a.PostRenderer = env.post()
 			}
+			a.Description, a.SkipSchemaValidation, a.EnableDNS, a.HideNotes, a.Devel, a.DependencyUpdate = w.Description, w.SkipSchema, w.EnableDNS, w.HideNotes, w.Devel, w.DependencyUpdate
+			a.ResetThenReuseValues = w.ResetThenReuse
+			if w.UserLabels {
+				a.Labels = map[string]string{"team": "a"}
+			}
 			a.Timeout = time.Second
 			_, err = a.Run(eng.RelName, c06Chart(op, w), vals)
 		case "rollback":
@@ -270,6 +288,7 @@ func c06RunWide(r *eng.Runner, op *eng.Op, w *c06Wide) (so eng.StepObs, ro *c06R
 			a := action.NewUninstall(cfg)
 			a.KeepHistory, a.DisableHooks, a.DryRun = f.KeepHistory, f.NoHooks, f.DryRun
 			a.IgnoreNotFound, a.WaitStrategy = w.IgnoreNotFound, ws
+			a.Description = w.Description
 			a.Timeout = time.Second
 			_, err = a.Run(eng.RelName)
 		}
